@@ -68,15 +68,27 @@ def same_elems(got, exp):
     return True
 
 
+SECOND = None        # edit scripts of length two: (attribute site, new name) of a rename applied AFTER the first edit
+
+
 def finish(bp, exp_elems, exp_types, what, wellformed=False):
     global LAST_DIFF
+    if SECOND is not None:
+        kl2, name2, s2 = SECOND
+        with notrace():
+            cand = [a for a in bp.select_many('O_ATTR') if one(a).O_OBJ[102]().Key_Lett == kl2 and a.Name == name2]
+        if len(cand) != 1:
+            return None        # the first edit renamed this very attribute
+        cand[0].Name = s2
+        exp_elems = {k: [((s2 if (k == kl2 and a == name2) else a), t) for a, t in v] for k, v in exp_elems.items()}
+        what = what + ', then rename %s.%s' % (kl2, name2)
     schema = G.build_schema(bp, bp.select_one('C_C', lambda x: x.Name == B_COMP_NAME))
     elems, types, comp = decls(schema)
     if comp != B_COMP or not same_elems(elems, exp_elems):
         LAST_DIFF = ('element declarations (%s)' % what, repr(elems), repr(exp_elems)); return False
     if sorted(types) != sorted(exp_types) or any(types[k][0] != exp_types[k][0] or list(types[k][1]) != list(exp_types[k][1]) for k in exp_types):
         LAST_DIFF = ('simple types (%s)' % what, repr(types), repr(exp_types)); return False
-    if wellformed:
+    if wellformed and SECOND is None:        # (with a symbolic name in the tree the realised-XML part is left to the single-edit runs)
         with notrace():
             try:
                 txt = ET.tostring(schema, 'utf-8')
@@ -333,3 +345,53 @@ def check_scope(ci: int, how: int) -> bool:
                 {k: [v[0], list(v[1])] for k, v in B_TYPES.items()} != g['types']:
             LAST_DIFF = ('baseline declarations differ from the reviewed expectation',); return False
     return finish(bp, exp, B_TYPES, 'scope %s %d' % (kl, how), wellformed=True)
+
+
+def _second(si2, s2, fn, *args):
+    global SECOND
+    kl2, name2 = ATTR_SITES[cs(si2, 0, NATTR - 1)]
+    SECOND = (kl2, name2, s2)
+    try:
+        return fn(*args)
+    finally:
+        SECOND = None
+
+
+def check_retype2(bi: int, ti: int, si2: int, s2: str) -> bool:
+    """
+    pre: 0 <= bi < NBASE and 0 <= ti < NTYPES and 0 <= si2 < NATTR and 1 <= len(s2) <= 2
+    post: POST(_)
+    """
+    return _second(si2, s2, check_retype, bi, ti)
+
+
+def check_reftype2(ri: int, ti: int, si2: int, s2: str) -> bool:
+    """
+    pre: 0 <= ri < NREF and 0 <= ti < 9 and 0 <= si2 < NATTR and 1 <= len(s2) <= 2
+    post: POST(_)
+    """
+    return _second(si2, s2, check_reftype, ri, ti)
+
+
+def check_scope2(ci: int, how: int, si2: int, s2: str) -> bool:
+    """
+    pre: 0 <= ci < NCLS and 0 <= how < 5 and how != 2 and 0 <= si2 < NATTR and 1 <= len(s2) <= 2
+    post: POST(_)
+    """
+    return _second(si2, s2, check_scope, ci, how)
+
+
+def check_udt2(bi: int, ni: int, si2: int, s2: str) -> bool:
+    """
+    pre: 0 <= bi < 8 and 0 <= ni < 3 and 0 <= si2 < NATTR and 1 <= len(s2) <= 2
+    post: POST(_)
+    """
+    return _second(si2, s2, check_udt, bi, ni)
+
+
+def check_enum2(op: int, s: str, si2: int, s2: str) -> bool:
+    """
+    pre: 0 <= op < 3 and 1 <= len(s) <= 2 and 0 <= si2 < NATTR and 1 <= len(s2) <= 2
+    post: POST(_)
+    """
+    return _second(si2, s2, check_enum, op, s)
